@@ -362,9 +362,21 @@ BAD_CALLS = [  # (text, called name): built-ins used where they do not belong, u
 ASSETS3 = ["USD", "EUR/2", "COIN"]
 
 
+BAD_ARGS = [  # a call whose FIRST argument fails to evaluate while the later ones are fine: the first failure is the cause
+    ('set_tx_meta($nope, "v")', "UnboundVariableErr", ["nope"]),
+    ('set_account_meta($nope, "k", 1)', "UnboundVariableErr", ["nope"]),
+    ('set_account_meta(@a, $nope_k, 42)', "UnboundVariableErr", ["nope_k"]),
+    ('set_tx_meta($missing_one, $missing_two)', "UnboundVariableErr", ["missing_one"]),
+]
+
+
 def gen_statement(ctx):
     r = ctx.rng
     if ctx.chance("bad_call", 0.0):
+        if r.random() < 0.35:
+            t, kind, payload = r.choice(BAD_ARGS)
+            ctx.features.add("call-with-failing-first-argument")
+            return t, ('error', kind, payload)
         t, name = r.choice(BAD_CALLS)
         ctx.features.add("call-of-non-statement-function")
         return t, ('error', "UnboundFunctionErr", [name])
@@ -571,6 +583,13 @@ def gen_case(seed, index, profile=None):
         import re as _re
         if _re.fullmatch(r"[a-zA-Z0-9_-]+(:[a-zA-Z0-9_-]+)*", stored):
             ctx.meta_account_var = (nm, stored)
+            if rng.random() < 0.5:
+                # chained origins: the balance of the account another origin produced
+                cb = rng.choice(ASSETS)
+                bval = ctx.balances.get((stored, cb), 0)
+                if bval >= 0:
+                    ctx.declare("monetary", ('monetary', cb, bval), None, origin="balance($%s, %s)" % (nm, cb))
+                    ctx.features.add("origin-chained")
             if rng.random() < 0.6:
                 # the same entry read a second time under another declared type (its text is valid for both)
                 sn = ctx.fresh("str")
